@@ -421,6 +421,15 @@ def run(check):
     files = [(f, s) for f, s in files if len(s) < (60000 if quick else 400000)]
     cases += file_cases(rng, files, 12 if quick else 40)
 
+    # identifiers longer than any window a prefix extraction might look at (and lines far longer)
+    for L in (255, 256, 257, 300, 1000, 5000) + (() if quick else (70000,)):
+        ident = 'q' + 'z' * (L - 1)
+        fn_ = os.path.join(S.projdir, 'pkg', 'cur.py')
+        cases.append(('%s = 1\n%s' % (ident, ident), (2, L), 'long-ident:name', fn_))
+        cases.append(('%s = 1\nf(0, %s' % (ident, ident), (2, L + 5), 'long-ident:call', fn_))
+        cases.append(('import os\nos.%s' % ident, (2, L + 3), 'long-ident:attr', fn_))
+        cases.append(('%s = 1\n%s%s' % (ident, ' ' * L, ident[:40]), (2, L + 40), 'long-line:name', fn_))
+
     orc = Oracle(S, check)
     prefix_reqs, prefix_impl = [], []
     proposal_lists = []
@@ -627,6 +636,40 @@ def mark_transparency(check, quick):
     check.oblige('the real marked tree is markTree of the real unmarked tree and the hypotheses of C12_mark_transparent hold on every sampled real '
                  'cursor, except cursors lying exactly on a stored location (counted, judged by the oracle only)', not bad,
                  '; '.join('%r at %s: %r' % (c[0][:80], c[2], {k: v for k, v in r.items() if k != 'newId'}) for c, r in bad[:3]))
+    # the ATTRIBUTE branch of assist: cursors right before (`x.|y`), inside and at the end of an existing attribute name
+    acases = []
+    for src in sources:
+        try:
+            tree = _ast.parse(src)
+        except SyntaxError:
+            continue
+        lines = src.splitlines()
+        attrs = [n for n in _ast.walk(tree) if isinstance(n, _ast.Attribute) and n.lineno == n.end_lineno
+                 and n.lineno <= len(lines) and lines[n.end_lineno - 1].isascii()
+                 and lines[n.end_lineno - 1][n.end_col_offset - len(n.attr):n.end_col_offset] == n.attr]
+        rng.shuffle(attrs)
+        for n in attrs[:(8 if quick else 25)]:
+            start = n.end_col_offset - len(n.attr)
+            for col in sorted(set([start, start + max(1, len(n.attr) // 2), n.end_col_offset])):
+                pos = (n.end_lineno, col)
+                try:
+                    marked = S['util'].Source(src, '/tmp/none.py', pos).source
+                    _ast.parse(marked)
+                except SyntaxError:
+                    continue
+                acases.append((src, marked, pos))
+    areps = extractcorr.mark_attr_pairs(acases)
+    aoutside = [r for r in areps if not r.get('ok') and r.get('equal') and r.get('renQ') and r.get('layoutPair')
+                and r.get('queriesFixed') and r.get('queriesOK') is False]
+    abad = [(c, r) for c, r in zip(acases, areps) if not r.get('ok') and not any(r is o for o in aoutside)]
+    check.extra['mark_transparency_attr'] = {'cursors': len(acases), 'markAttrOK': len(acases) - len(abad) - len(aoutside),
+                                             'outside_hypotheses': len(aoutside),
+                                             'note': 'markAttrOK = the real marked tree is markAttrTree of the real unmarked tree and the '
+                                                     'hypotheses of C12_mark_transparent_attr hold: for those cursors the equality of the tables '
+                                                     'at every Name inside attr.value is a theorem'}
+    check.oblige('attribute branch: the real marked tree is markAttrTree of the real unmarked tree and the hypotheses of C12_mark_transparent_attr '
+                 'hold on every sampled real attribute cursor', not abad,
+                 '; '.join('%r at %s: %r' % (c[0][:80], c[2], {k: v for k, v in r.items() if k != 'newAttr'}) for c, r in abad[:3]))
 
 
 def short(x, n=300):
